@@ -108,31 +108,57 @@ def run(chk, replay=None):
         cases = []
         if replay:
             r = json.load(open(replay))
-            cases = [(None, t, 'replay') for t in r['cellml']]
+            cases = [(None, t, 'replay', r.get('externals', [])) for t in r['cellml']]
         else:
             for i in range(n):
                 sysd = M.gen_system(rng, ncomp=rng.randint(1, 4), nq=rng.randint(2, 9), depth=rng.randint(1, 3), ode=rng.random() < 0.7, typed=True)
                 text = M.to_cellml(sysd, rng, nla=rng.random() < 0.3)
-                cases.append((sysd, text, 'base'))
+                cases.append((sysd, text, 'base', []))
                 r = rng.random()
                 if r < 0.15 and '<apply><eq/>' in text:
-                    cases.append((None, re.sub(r'<apply><eq/>.*?</apply></math>', '</math>', text, count=1), 'missing-equation'))
+                    cases.append((None, re.sub(r'<apply><eq/>.*?</apply></math>', '</math>', text, count=1), 'missing-equation', []))
                 elif r < 0.3:
                     k = rng.randrange(1, 1 + text.count('interface="public"/>'))
                     parts = text.split('interface="public"/>')
-                    cases.append((None, 'interface="public"/>'.join(parts[:k]) + 'interface="public" initial_value="1"/>' + 'interface="public"/>'.join(parts[k:]), 'extra-initial-value'))
-        for sysd, text, tag in cases:
+                    cases.append((None, 'interface="public"/>'.join(parts[:k]) + 'interface="public" initial_value="1"/>' + 'interface="public"/>'.join(parts[k:]), 'extra-initial-value', []))
+                # external marks: a random quantity; the unknown of a removed equation (no NLA block: the pruning of NLA unknowns is not modelled)
+                if not sysd.get('nla_block') and rng.random() < 0.8:
+                    cand = [q for q in sysd['qs'] if q.kind != 'voi']
+                    q = rng.choice(cand)
+                    cases.append((None, text, 'marked', ['c%d' % q.home, q.members[q.home][0]]))
+                    victims = [q for q in sysd['qs'] if q.kind in ('alg', 'cconst')]
+                    if victims:
+                        v = rng.choice(victims)
+                        t2 = text.replace(sysd['eqtext'][v.idx], '', 1)
+                        if rng.random() < 0.6:
+                            # an equation that can only be solved as an NLA equation once the marked unknown is known
+                            vn = v.members[v.home][0]
+                            comp = '<component name="c%d">' % v.home
+                            extra = '<apply><eq/><apply><plus/><apply><times/><ci>nq</ci><ci>nq</ci></apply><ci>nq</ci></apply><ci>%s</ci></apply>' % vn
+                            blk = t2[t2.index(comp):]
+                            blk_end = blk.index('</component>')
+                            body = blk[:blk_end]
+                            if '<math' in body:
+                                body = body.replace('</math>', extra + '</math>', 1)
+                            else:
+                                body += '  <math xmlns="http://www.w3.org/1998/Math/MathML">' + extra + '</math>\n  '
+                            body = body.replace(comp, comp + '\n    <variable name="nq" units="dimensionless"/>', 1)
+                            t2 = t2[:t2.index(comp)] + body + blk[blk_end:]
+                        cases.append((None, t2, 'rescued', ['c%d' % v.home, v.members[v.home][0]]))
+        for sysd, text, tag, ext in cases:
             fn = os.path.join(wd, 'm.cellml'); open(fn, 'w').write(text)
-            real = analyse_real(hx, fn)
+            real = analyse_real(hx, fn, ext)
             if real is None:
                 oracle.append(('the analyser crashed', [text])); continue
             stats['systems' if tag == 'base' else 'variants'] += 1
             stats['types'][real['type']] = stats['types'].get(real['type'], 0) + 1
-            a = A.parse(text)
+            if tag == 'rescued' and real['type'] not in VALID:
+                oracle.append(('the only unknown %s.%s is marked as external but the model is analysed as %s' % (ext[0], ext[1], real['type']), [text], ext))
+            a = A.parse(text, ext)
             skip = any('cannot be both a variable of integration and initialised' in e or 'cannot therefore both be initialised' in e for e in real['errors'])
             if not skip:
                 lines.append(A.wire(a)); metas.append((text, real, a))
-            if real['type'] in VALID:
+            if real['type'] in VALID and not ext:
                 for w in wellformed(a, real):
                     oracle.append(('the analysed model is not well formed: ' + w, [text]))
             if sysd is not None:
@@ -201,8 +227,9 @@ def run(chk, replay=None):
                         'one evaluation = one analysis compared with the Lean model or with the unpermuted analysis' % nperm,
                    samples=[lines[0][:300] if lines else '', model[0][:200] if model else ''],
                    traces_validated_against_impl=len(lines) - len(corr), exhaustive=False, outcome_histogram=stats)
-    for what, texts in oracle[:3]:
-        chk.violation('analysis is not consistent: ' + what, {'kind': 'oracle', 'engine': 'analyse', 'cellml': texts, 'why': what}, True)
+    for o in oracle[:3]:
+        what, texts = o[0], o[1]
+        chk.violation('analysis is not consistent: ' + what, {'kind': 'oracle', 'engine': 'analyse', 'cellml': texts, 'externals': o[2] if len(o) > 2 else [], 'why': what}, True)
     if not oracle:
         for what, text in corr[:3]:
             chk.violation('analyser model and Analyser::analyseModel disagree (correspondence `analyse` broken): ' + what,
